@@ -43,7 +43,7 @@ ASSUMPTIONS = [
     "the gateway's write-spacing task is slowed from 50 ms to 250 ms (C11's subject) so that a virtual day costs seconds of wall time",
     "faults are confined to the first polling round (the first virtual hour); afterwards the link is clean",
 ]
-REQUIRED = {"scenarios": 16, "scenarios.faulted": 4, "samples.monotone": 100, "rq.0005": 50, "rq.000C": 100}
+REQUIRED = {"state_saves": 5, "scenarios": 16, "scenarios.faulted": 4, "samples.monotone": 100, "rq.0005": 50, "rq.000C": 100}
 
 CTL, GWY_ID = "01:145038", "18:006402"
 CLASS_CODE = {"radiator_valve": "08", "zone_valve": "0A", "electric_heat": "11", "mixing_valve": "0B"}
@@ -253,6 +253,21 @@ async def scenario(loop: vloop.VirtualLoop, ctx, trial: int) -> None:
 
     loop.call_later(first, announce)
     gwy = await harness.start_port_gateway(loop, air, GWY_ID, config={"disable_discovery": False, "enable_eavesdrop": False})
+    # what an application does meanwhile: it saves the gateway's state now and then (Home Assistant does so every
+    # few minutes) - also before the controller, or parts of it, have been discovered
+    if trial % 3 == 0:
+        snaps = sorted(rng.choice((0.0, 0.01, 0.06, 0.3, 2.0, 40.0, 400.0, 90000.0)) for _ in range(rng.choice((1, 2, 4))))
+        meta["state_saved_at_s"] = snaps
+
+        def save_state() -> None:
+            try:
+                gwy.get_state()
+                ctx.count("state_saves")
+            except Exception as err:  # noqa: BLE001  (C13's subject)
+                ctx.info.setdefault("get_state_raised", []).append(f"{type(err).__name__}@{innermost_lib_frame(err)}")
+
+        for at in snaps:
+            loop.call_later(at, save_state)
     want = project({CTL: {"zones": cfg["zones"], "stored_hotwater": cfg["stored_hotwater"], "system": {"appliance_control": cfg["appliance_control"]}}})
     want_facts = facts(want)
     allowed_ids = sim.devices() | {GWY_ID}
